@@ -83,6 +83,7 @@ structure LayerD where
 structure FSpec where
   kind : String      -- filter class name
   pre : Bool
+  skip : List String := []   -- SkipExportGlyphsFilter: the names it deletes from the glyph set
 
 structure LibD where
   mathPrefix : Bool := false         -- some key starts with com.nagwa.MATHPlugin.
@@ -200,6 +201,7 @@ inductive Stage
   | dsCopy
   | dsAlias
   | dsWrite (name : String) (slots : List (String × Bool))
+  | drop (srcs : List Nat) (names : List String)   -- `del glyphSet[name]` (SkipExportGlyphs filters): entries leave the dict
   | reset                          -- a new call starts: handles are dropped
 
 /-- stages that write through the `ufo` handle or bring caller objects into a glyph set / the ds handle -/
@@ -310,6 +312,9 @@ def instLeaks (fd : FontD) (f : Nat) (L : String) : List Write :=
   ((((fd.layer L).map (·.glyphs)).getD []).filter (fun g => g.contours && !g.comps.isEmpty)).map
     (fun g => { cell := ⟨.glyph f L g.name, "anchors"⟩, must := false, stage := PROPAGATE })
 
+def dropNames (names : List String) (gs : GS) : GS :=
+  { gs with entries := gs.entries.filter (fun en => !names.contains en.name) }
+
 def exec (inp : Inp) : Stage → Env → List Write × Env
   | .fromLayer f layer copy, e =>
     let (gs, nx) := fromLayerGS inp f layer copy e.next
@@ -350,6 +355,8 @@ def exec (inp : Inp) : Stage → Env → List Write × Env
     match e.docW with
     | none => ([], e)
     | some o => (slots.map (fun (s, m) => { cell := ⟨o, s⟩, must := m, stage := if o.owned then INPLACE else name }), e)
+  | .drop srcs names, e =>
+    ([], { e with gss := e.gss.zipIdx.map (fun (gs, i) => if srcs.contains i then dropNames names gs else gs) })
   | .reset, e => ([], { e with gss := [], docW := none, instStale := false })
 
 def run (inp : Inp) : List Stage → Env → List Write × Env
@@ -370,6 +377,10 @@ def stageOfSpec (ds : Bool) (src : Nat) (s : FSpec) : Stage :=
   else if ds && s.kind == "PropagateAnchorsFilter" then .propagateI src
   else if s.kind == EXPLODE then .explode src false
   else .filter [src] s.kind (fieldsOf s.kind) (libKeyOf s.kind)
+
+/-- a custom filter and, for SkipExportGlyphsFilter, the deletion of its names from the glyph set -/
+def stagesOfSpec (ds : Bool) (src : Nat) (s : FSpec) : List Stage :=
+  stageOfSpec ds src s :: (if s.skip.isEmpty then [] else [Stage.drop [src] s.skip])
 
 /-- `_load_custom_filters`: the lib's filters (pre ones first: `itertools.chain(*loadFilters(ufo))`) unless a
     list is passed, in which case the ellipsis stands for them -/
@@ -393,22 +404,25 @@ def maxLen (ls : List (List Stage)) : Nat := (ls.map List.length).foldl max 0
 
 def srcIdx (cfg : Cfg) : List Nat := List.range cfg.sources.length
 
-/-- effective skipExportGlyphs list is non-empty -/
-def skipActive (inp : Inp) : Bool :=
+/-- effective skipExportGlyphs list (`BaseCompiler.preprocess` / `_pre_compile_designspace`) -/
+def skipList (inp : Inp) : List String :=
   match inp.cfg.fn with
-  | .ttf | .otf => !(inp.cfg.skipArg.getD ((inp.cfg.sources.head?.map (fun s => (inp.font s.1).lib.skipExport)).getD [])).isEmpty
+  | .ttf | .otf => inp.cfg.skipArg.getD ((inp.cfg.sources.head?.map (fun s => (inp.font s.1).lib.skipExport)).getD [])
   | .ittfs => (match inp.cfg.skipArg with
-      | some l => !l.isEmpty
-      | none => inp.cfg.sources.any (fun s => !(inp.font s.1).lib.skipExport.isEmpty))
-  | _ => !inp.cfg.dsSkip.isEmpty
+      | some l => l
+      | none => inp.cfg.sources.flatMap (fun s => (inp.font s.1).lib.skipExport))
+  | _ => inp.cfg.dsSkip
+
+/-- … is non-empty -/
+def skipActive (inp : Inp) : Bool := !(skipList inp).isEmpty
 
 def fromLayers (inp : Inp) : List Stage :=
   inp.cfg.sources.map (fun s => Stage.fromLayer s.1 s.2 (!inp.cfg.inplace))
 
 def preStages (inp : Inp) (i : Nat) (f : Nat) : List Stage :=
-  ((customFilters inp.cfg (inp.font f)).filter (·.pre)).map (stageOfSpec (isDS inp.cfg.fn) i)
+  ((customFilters inp.cfg (inp.font f)).filter (·.pre)).flatMap (stagesOfSpec (isDS inp.cfg.fn) i)
 def postStages (inp : Inp) (i : Nat) (f : Nat) : List Stage :=
-  ((customFilters inp.cfg (inp.font f)).filter (!·.pre)).map (stageOfSpec (isDS inp.cfg.fn) i)
+  ((customFilters inp.cfg (inp.font f)).filter (!·.pre)).flatMap (stagesOfSpec (isDS inp.cfg.fn) i)
 
 def explodeStage (inp : Inp) (i : Nat) (f : Nat) (certain : Bool) : List Stage :=
   if colourTrigger (inp.font f) then [.explode i certain] else []
@@ -416,7 +430,8 @@ def explodeStage (inp : Inp) (i : Nat) (f : Nat) (certain : Bool) : List Stage :
 /-- TTFPreProcessor / OTFPreProcessor for source 0 -/
 def singlePre (inp : Inp) (ttf : Bool) (f : Nat) : List Stage :=
   let c := inp.cfg
-  (if skipActive inp then [Stage.filter [0] "SkipExportGlyphsFilter" (fieldsOf "SkipExportGlyphsFilter") none] else [])
+  (if skipActive inp then [Stage.filter [0] "SkipExportGlyphsFilter" (fieldsOf "SkipExportGlyphsFilter") none,
+                           Stage.drop [0] (skipList inp)] else [])
   ++ preStages inp 0 f
   ++ explodeStage inp 0 f (!skipActive inp && (preStages inp 0 f).isEmpty)
   ++ [Stage.filter [0] "DecomposeComponentsFilter" (fieldsOf "DecomposeComponentsFilter") none]
@@ -462,7 +477,8 @@ def interpPre (old : Bool) (inp : Inp) (ttf : Bool) : List Stage :=
   let dflt := perSource inp (fun i f => explodeStage inp i f (!ttf && !skipActive inp && pre.all List.isEmpty))
   fromLayers inp
   ++ (if isDS c.fn then [Stage.instantiate (old || c.inplace)] else [])
-  ++ (if skipActive inp then [Stage.filter all "SkipExportGlyphsIFilter" (fieldsOf "SkipExportGlyphsIFilter") none] else [])
+  ++ (if skipActive inp then [Stage.filter all "SkipExportGlyphsIFilter" (fieldsOf "SkipExportGlyphsIFilter") none,
+                              Stage.drop all (skipList inp)] else [])
   ++ zipLongest pre (maxLen pre)
   ++ (if ttf then [Stage.filter all "DecomposeComponentsIFilter" (fieldsOf "DecomposeComponentsIFilter") none] else [])
   ++ zipLongest dflt (maxLen dflt)
